@@ -591,7 +591,6 @@ func ruleC13ParallelGuard(c *Ctx) {
 	c.Check(len(why) == 0, "c13.parallel-guard", "isParallelSafe", c.P.Pos(safe.Pos()), "true only for AND/OR trees of column-to-column comparisons and boolean literals", strings.Join(uniq(why), "; "))
 }
 
-
 // A predicate over an expression tree written with an explicit stack instead of recursion: a list that starts as
 // [expr]; each round takes one node off the list; the answer is true only when the list is exhausted; a round either
 // answers false or goes on to the next round, possibly after putting the node's operands on the list.
